@@ -83,7 +83,8 @@ def generic(mod, tier, seed, replay):
             if terms is None:
                 raise RuntimeError(f"driver error: {drv[0][1]}")
             verdicts = core.run_coq_cases(prop, mod.RUN_MODULE, terms, chunk=getattr(mod, "CHUNK", 400),
-                                          verdict_fn=getattr(mod, "VERDICT_FN", "verdict"))
+                                          verdict_fn=getattr(mod, "VERDICT_FN", "verdict"),
+                                          case_type=getattr(mod, "CASE_TYPE", None))
         except Exception as e:  # noqa: BLE001
             coq_err = str(e)
             core.log(f"[{prop}] model evaluation failed: {coq_err[:2000]}")
